@@ -108,8 +108,37 @@ class System:
         return SL.Lab(self.W, K, dims, lambda asg: sum((s * m.at(asg) for s, m in margs), 0))
 
 
+def _generated_graphs(n=24, seed=20261004):
+    """deterministic pseudo-random graphs for the thorough tier: <= 5 processes, <= 7 flows over random
+    dimension subsets/orders, <= 2 stocks (with or without process)"""
+    import random
+
+    rng = random.Random(seed)
+    dimsets = ["te", "et", "t", "ter", "tr", "rt", "", "e", "ret"]
+    out = {}
+    for k in range(n):
+        procs = ["sysenv"] + [f"P{j}" for j in range(rng.randint(1, 4))]
+        flows = []
+        for _ in range(rng.randint(0, 7)):
+            flows.append((rng.choice(procs), rng.choice(procs), rng.choice(dimsets)))
+        stocks = []
+        for _ in range(rng.randint(0, 2)):
+            letters = rng.choice(["t", "te", "tr", "ter"])
+            stocks.append((rng.choice(procs[1:] + [None]), letters))
+        out[f"generated{k}"] = (procs, flows, stocks)
+    return out
+
+
+GRAPHS.update(_generated_graphs())
+BASE_GRAPHS = [g for g in GRAPHS if not g.startswith("generated")]
+
+
+def graph_names(tier):
+    return list(GRAPHS) if tier == "thorough" else BASE_GRAPHS
+
+
 def sk_graphs(tier):
-    return [{"graph": g} for g in GRAPHS]
+    return [{"graph": g} for g in graph_names(tier)]
 
 
 MB_TARGETS = [
@@ -139,7 +168,7 @@ def u_get_mass_balance(W, sk):
     snaps = SL.snapshot(W, S.arrays())
     # modular: the arithmetic on flows goes through the *contracts* of the FlodymArray operators (stubs)
     out = W.call(lambda: S.mfa._get_mass_balance(), stubs=operator_contract_stubs(W))
-    if W.symbolic and (S.flow_list or S.stock_list):
+    if W.symbolic and (S.flow_list or any(p is not None for _, p in S.stock_list)):
         W.prove("get_mass_balance.operator_contracts_were_used", len(W.called_stubs) > 0, kind="callee-pre")
     W.prove("get_mass_balance.returns", out.kind == "return", detail=repr(out))
     if out.kind != "return":
@@ -162,7 +191,7 @@ def _abs(W, v):
 
 def sk_check(tier):
     out = []
-    for g in GRAPHS:
+    for g in graph_names(tier):
         for tol in ("explicit", "default"):
             for raise_error in (True, False):
                 out.append({"graph": g, "tol": tol, "raise_error": raise_error})
